@@ -54,22 +54,50 @@ class Between(Edit):
     def describe(self):
         return f"{self.kind}: {' '.join(self.start.split())[:60]} … {' '.join(self.end.split())[:40]} => {' '.join(self.new.split())[:60]} [sha256 {self.sha}]" + (f" ({self.why})" if self.why else "")
 
+class DropMacros(Edit):
+    """delete every `name!( … );` statement for the given logging macros (DESIGN §3 rule 7)"""
+    def __init__(self, names=("debug", "info", "warn", "trace")):
+        self.names = names
+        self.n = 0
+    def apply(self, text, ctx):
+        src = Source(text, ctx)
+        code = src.code
+        cuts = []
+        for ci, k in enumerate(code):
+            if src.toks[k][0] == "ident" and src.s(k) in self.names and ci + 2 < len(code) and src.s(code[ci+1]) == "!" and src.s(code[ci+2]) == "(":
+                close = src.match[code[ci+2]]
+                cj = code.index(close)
+                end = src.toks[close][2]
+                if cj + 1 < len(code) and src.s(code[cj+1]) == ";":
+                    end = src.toks[code[cj+1]][2]
+                cuts.append((src.toks[k][1], end))
+        self.n = len(cuts)
+        for a, b in sorted(cuts, reverse=True):
+            text = text[:a] + text[b:]
+        return text
+    def describe(self):
+        return f"logging macros dropped: {self.n} x {'/'.join(self.names)}!(..)"
+
 class After(Edit):
-    """insert ghost/proof text after the anchor text"""
-    def __init__(self, anchor, ins, count=1):
-        self.anchor, self.ins, self.count = anchor, ins, count
+    """insert ghost/proof text after the anchor text. optional=True (proof hints only): a missing anchor skips the hint"""
+    def __init__(self, anchor, ins, count=1, optional=False):
+        self.anchor, self.ins, self.count, self.optional = anchor, ins, count, optional
     def apply(self, text, ctx):
         n = text.count(self.anchor)
+        if n == 0 and self.optional:
+            return text
         if n != self.count:
             raise ExtractError(f"{ctx}: After anchor matched {n}x (want {self.count}): {self.anchor[:70]!r}")
         return text.replace(self.anchor, self.anchor + "\n" + self.ins + "\n")
     def describe(self): return f"ghost-insert after: {' '.join(self.anchor.split())[:70]}"
 
 class Before(Edit):
-    def __init__(self, anchor, ins, count=1):
-        self.anchor, self.ins, self.count = anchor, ins, count
+    def __init__(self, anchor, ins, count=1, optional=False):
+        self.anchor, self.ins, self.count, self.optional = anchor, ins, count, optional
     def apply(self, text, ctx):
         n = text.count(self.anchor)
+        if n == 0 and self.optional:
+            return text
         if n != self.count:
             raise ExtractError(f"{ctx}: Before anchor matched {n}x (want {self.count}): {self.anchor[:70]!r}")
         return text.replace(self.anchor, "\n" + self.ins + "\n" + self.anchor)
